@@ -647,6 +647,26 @@ func (e *Eval) call(n *Node) Val {
 			v := e.eval(args[0])
 			key := x.memKey(types.Typ[types.Int64])
 			return Val{T: fmt.Sprintf("(select %s %s)", x.get(e.st, key), v.T), Typ: types.Typ[types.Int64], Addr: &Addr{Kind: "cell", Key: key, Ref: v.T}}
+		case "lockframe":
+			// lockframe(): this thread holds exactly the locks it held at entry
+			if e.old == nil {
+				e.fail("lockframe() needs a pre-state")
+			}
+			var cs []string
+			for _, key := range []string{"Lock:w", "Lock:r"} {
+				x.regComp(key, "(Array Int Int)")
+				cs = append(cs, fmt.Sprintf("(= %s %s)", x.get(e.st, key), x.get(e.old, key)))
+			}
+			return Val{T: "(and " + strings.Join(cs, " ") + ")", Sort: "Bool"}
+		case "wlockcount", "rlockcount":
+			// number of times this thread holds the write / read side of the mutex at this address (a location)
+			v := e.eval(args[0])
+			key := "Lock:w"
+			if nm == "rlockcount" {
+				key = "Lock:r"
+			}
+			x.regComp(key, "(Array Int Int)")
+			return Val{T: fmt.Sprintf("(select %s %s)", x.get(e.st, key), v.T), Sort: "Int", Addr: &Addr{Kind: "cell", Key: key, Ref: v.T}}
 		case "panicked":
 			// panicked(): inside an always clause of an assumed contract — the call ended in a panic
 			v, ok := e.env["$panicked"]
@@ -1039,7 +1059,7 @@ func (x *Engine) frameTerm(st, old *State, except map[string][]string) string {
 	a0 := x.get(old, "$alloc")
 	var cs []string
 	for _, k := range keys {
-		if strings.HasPrefix(k, "$") || strings.HasPrefix(k, "ghost:clock") || strings.HasPrefix(k, "Once:") || strings.HasPrefix(k, "Iter:") {
+		if strings.HasPrefix(k, "$") || strings.HasPrefix(k, "ghost:clock") || strings.HasPrefix(k, "Once:") || strings.HasPrefix(k, "Iter:") || strings.HasPrefix(k, "Lock:") {
 			continue
 		}
 		fin, ini := x.get(st, k), x.get(old, k)
